@@ -161,7 +161,7 @@ func (c *CronStore) Schedule() []def.Task {
 
 	var out []def.Task
 	for cloned.Len() > 0 {
-		out = append(out, *cloned.Pop().IndexedTask.Task)
+		out = append(out, cloned.Pop().IndexedTask.Task.Clone())
 	}
 	return out
 }
